@@ -47,6 +47,7 @@ enum resp {
 	RS_ERR_UNSUPP_LOWER, /* Error Report "unsupported version" carrying version 0 */
 	RS_ERR_UNSUPP_SAME, /* ... carrying the client's own version (not a downgrade) */
 	RS_ERR_UNSUPP_HIGHER, /* ... carrying version 2 */
+	RS_ERR_UNSUPP_V1, /* ... carrying version 1: the client's own, or a higher supported one once it is at 0 */
 	RS_V0_ANSWER, /* the cache only speaks version 0 and answers in version 0 */
 	RS_WRONGVER_MID, /* correct answer but one payload PDU carries another version */
 	RS_EOD_OTHER_FMT, /* End of Data in the other version's format */
@@ -58,7 +59,7 @@ static const char *RESP_NAME[RS__N] = {
 	"ok", "ok-new-data", "cache-reset", "err-no-data", "err-internal", "timeout", "close", "transport-error", "send-fails",
 	"foreign-session-in-cache-response", "foreign-session-in-eod", "foreign-session-in-both", "cut-then-timeout",
 	"cut-then-error", "duplicate-announcement", "withdraw-unknown", "bad-length-pdu", "cache-restart-new-session",
-	"err-unsupported-version(lower)", "err-unsupported-version(same)", "err-unsupported-version(higher)",
+	"err-unsupported-version(lower)", "err-unsupported-version(same)", "err-unsupported-version(higher)", "err-unsupported-version(v1)",
 	"answer-in-version-0", "one-pdu-with-other-version", "eod-in-other-format", "answer-in-version-2",
 };
 
@@ -508,6 +509,9 @@ static void respond(int kind, const struct rpdu *q)
 		break;
 	case RS_ERR_UNSUPP_HIGHER:
 		pdu_error(&b, 2, EC_UNSUPP_VER, q->raw, q->len, "", 0);
+		break;
+	case RS_ERR_UNSUPP_V1:
+		pdu_error(&b, 1, EC_UNSUPP_VER, q->raw, q->len, "", 0);
 		break;
 	case RS_TIMEOUT:
 		ENV.tail = TAIL_TIMEOUT;
@@ -1070,6 +1074,7 @@ static void setup_menus(void)
 		menu_add(RS_ERR_UNSUPP_LOWER);
 		menu_add(RS_ERR_UNSUPP_SAME);
 		menu_add(RS_ERR_UNSUPP_HIGHER);
+		menu_add(RS_ERR_UNSUPP_V1);
 		menu_add(RS_CLOSE);
 		menu_add(RS_V0_ANSWER);
 		menu_add(RS_WRONGVER_MID);
